@@ -198,6 +198,16 @@ def generate(streams: core.Streams, tier: str) -> dict:
         probe = {"op": "Probe", "backend": b["id"], "doc": gen.pick(s, dids), "via": via, "format": fmt}
         if via == "convert" and "f0" in extra_docs and gen.chance(s, 0.4):
             probe["with"] = ["f0"]  # the probe rule is loaded together with the filter
+        if "c0" in extra_docs and gen.chance(s, 0.3):
+            # the probe is the correlation rule with the rule it refers to, converted through the single-rule
+            # entry points; between the two calls the backend may convert an unrelated rule (history, not
+            # part of the fresh world), possibly in another format
+            fmt = b["last_format"] if b["last_format"] and gen.chance(s, 0.7) else gen.pick(s, FORMATS)
+            probe = {"op": "Probe", "backend": b["id"], "doc": "c0", "with": [extra_docs["c0"]["_needs"]],
+                     "via": "single_calls", "format": fmt}
+            if gen.chance(s, 0.6):
+                probe["between"] = {"doc": gen.pick(s, dids), "format": gen.pick(s, FORMATS)}
+            b["last_format"] = fmt
         ops.append(probe)
     for d in extra_docs.values():
         d.pop("_needs", None)
@@ -281,13 +291,27 @@ class World:
         pipe = self.pipeline_object(op.get("pipeline"), bool(op.get("shared")) and not fresh)
         return cls(pipe, collect_errors=bool(op.get("collect_errors")))
 
-    def convert(self, backend: Any, docs: list[dict], via: str, fmt: str) -> dict:
+    def convert(self, backend: Any, docs: list[dict], via: str, fmt: str, between: dict | None = None) -> dict:
         n0 = len(backend.errors)
 
         def call() -> Any:
             if via == "convert":
                 coll = self.w.load_collection(docs)
                 return backend.convert(coll, fmt)
+            elif via == "single_calls":
+                from sigma.rule import SigmaRule
+
+                coll = self.w.load_collection(docs)
+                out: list = []
+                for k, r in enumerate(coll.rules):
+                    if k == 1 and between is not None:  # history: an unrelated rule, maybe another format
+                        other = SigmaRule.from_dict(copy.deepcopy(self.sc["documents"][between["doc"]]))
+                        self.w.capture(lambda: backend.convert_rule(other, between["format"]))
+                    if isinstance(r, SigmaRule):
+                        out.extend(backend.convert_rule(r, fmt))
+                    else:
+                        out.extend(backend.convert_correlation_rule(r, fmt))
+                return out
             else:
                 from sigma.rule import SigmaRule
 
@@ -462,7 +486,9 @@ def _execute(scenario: dict) -> dict:
                         or (m.get("shared") and m.get("pipeline") in touched_pipes)
                         or _shares(scenario, op["doc"], touched_docs)):
                     nontrivial = True
-                got = world.convert(b, _probe_docs(scenario, op), op["via"], op["format"])
+                got = world.convert(b, _probe_docs(scenario, op), op["via"], op["format"], op.get("between"))
+                if op.get("between"):
+                    probes["conversion_between_rule_and_its_correlation_rule"] = probes.get("conversion_between_rule_and_its_correlation_rule", 0) + 1
                 own_errors.setdefault(op["backend"], []).extend(got.get("errors", []))
                 want = fresh[i]
                 oc = _outcome_class(got)
